@@ -137,7 +137,7 @@ func TestVerif_C07(t *testing.T) {
 			Prop: "C07", Name: "gen", Checks: vfN(60000, 40000000),
 			Gen: func(t *rapid.T) c07Case {
 				var x []byte
-				switch rapid.IntRange(0, 5).Draw(t, "k") {
+				switch rapid.IntRange(0, 6).Draw(t, "k") {
 				case 0: // text with 0..3 injected arbitrary bytes
 					x = []byte(vfGenTextish(t))
 					for i, n := 0, rapid.IntRange(0, 3).Draw(t, "ninj"); i < n; i++ {
@@ -162,6 +162,13 @@ func TestVerif_C07(t *testing.T) {
 					x = rapid.SliceOfN(rapid.SampledFrom([]byte{'a', ' ', '\n', '\t', '\r', 0x0c, 0x1b, 0x7f, 0x80, 0xa0, 0xff, 0xfe, 0xef, 0xbb, 0xbf, 0x00, 0x08, 0x0b, 0x0e, 0x1a, 0x1c, 0x1f, '{', '<', '#', '!'}), 0, 12).Draw(t, "cls")
 				case 4:
 					x = vfGenAnyInput(t)
+				case 6: // clean text of >= 520 bytes with an octal field (possibly NUL-terminated) at 148..155
+					x = vfTarWindow(t, []byte(vfGenTextish(t)+"plain words and lines\n"))
+					for i := range x {
+						if vfIsBinByte(x[i]) && (i < 148 || i >= 156) {
+							x[i] = ' '
+						}
+					}
 				default: // long clean text, limit above the default, one byte planted around the limit
 					lx, ll := vfGenLong(t)
 					p := int(ll) + rapid.IntRange(-2, 40).Draw(t, "off")
